@@ -3,6 +3,7 @@
 (* Sim_LeaseAnswer.cfg); the delegation half is frozen at its initial state *)
 EXTENDS Lease
 KeysQ  == {"al", "tg"}
+KeysT  == {"al", "md", "tg"}
 KeysC  == {"tg"}
 ChainC == <<"tg">>
 AuxN == {NoAux}
